@@ -72,6 +72,8 @@ Accept(e) ==
     [] e.kind = "group"    -> GroupOK(e)
     [] e.kind = "setop"    -> Decided(e.A \o e.B) => TextRows(e.res) = TextRows(SetOpRows(e))
     [] e.kind = "analytic" -> AnalyticOK(e)
+    \* SELECT (cond) FROM t : the three-valued result of the condition for every row, in order
+    [] e.kind = "truth"    -> e.res = [i \in 1..Len(e.in) |-> Truth(e.cond, e.in[i])]
 
 TraceInit == l = 1
 TraceNext == l <= Len(Trace) /\ (Accept(Trace[l]) = TRUE) /\ l' = l + 1   \* "= TRUE": evaluate as an expression (short-circuiting), not as an action
